@@ -539,9 +539,11 @@ def _type_check_passed_parameters(atomic_type, ir, source_file_name, errors):
             # definition site; no need for another, probably-confusing error at any
             # usage sites.
             continue
-        if (
-            atomic_type.runtime_parameter[i].type.which_type
-            != referenced_type.runtime_parameter[i].type.which_type
+        passed = atomic_type.runtime_parameter[i]
+        declared = referenced_type.runtime_parameter[i]
+        # An enum parameter only accepts values of the same enum.
+        if passed.type.which_type != declared.type.which_type or not (
+            _types_are_compatible(passed, declared)
         ):
             errors.append(
                 [
